@@ -164,7 +164,7 @@ Proof.
   assert (Hb1 : N.testbit wq (N.log2 wq) = true) by (apply N.bit_log2; lia).
   assert (Hb2 : N.testbit (wq - 1) (N.log2 wq) = true).
   { rewrite <- Hlog. apply N.bit_log2.
-    assert (1 <= 2 ^ N.log2 wq) by (apply N.neq_0_lt_0; apply N.pow_nonzero; lia). lia. }
+    assert (2 ^ N.log2 wq <> 0) by (apply N.pow_nonzero; lia). lia. }
   pose proof (N.land_spec wq (wq - 1) (N.log2 wq)) as Hs.
   rewrite H, N.bits_0, Hb1, Hb2 in Hs. discriminate.
 Qed.
